@@ -9,7 +9,9 @@ VARIABLES l, cfg
 Log == ndJsonDeserialize(IOEnv.TRACE)
 Ev == Log[l]
 TInit == l = 1 /\ cfg = [args |-> <<>>]
-DestEq(r) == \A a \in 1..NArgs(cfg) : r.dest[a] = Ev.dest[a]
+DestEq(r) == /\ \A a \in 1..NArgs(cfg) : r.dest[a] = Ev.dest[a]
+             \* second variables of pair arguments (traces recorded before pair arguments existed have no such field)
+             /\ ("aux" \in DOMAIN Ev => Len(Ev.aux) = NArgs(cfg) /\ \A a \in 1..NArgs(cfg) : r.aux[a] = Ev.aux[a])
 \* "lenient" configurations (C05): refused definitions are skipped by the driver, the handler holds the rest
 Lenient == "lenient" \in DOMAIN cfg /\ cfg.lenient
 EffCfg == IF ~Lenient THEN cfg
